@@ -325,6 +325,14 @@ def derived_violations(c, payload, now, lw):
         bad.add(("value", "auth_time"))
     if payload.get("amr") and not isinstance(payload["amr"], list):
         bad.add(("value", "amr"))
+    # azp (OIDC Core 3.1.3.7 rules 4-5 as the library reads them): needed unless the token's only audience is the client; when present it names the client
+    cid, aud, azp = p.get("client_id"), payload.get("aud"), payload.get("azp")
+    if cid and aud:
+        sole = aud[0] if isinstance(aud, list) and len(aud) == 1 else aud
+        if sole != cid and not azp:
+            bad.add(("missing", "azp"))
+    if azp and cid and azp != cid:
+        bad.add(("value", "azp"))
     return bad
 
 
@@ -482,7 +490,7 @@ def oracle_one(c, out):
         bad = violated(payload, options, now, lw) | derived_violations(c, payload, now, lw)
         if "raised" in out:
             return [(f"{c['derived']} validate raised {out['raised']} (outside the JOSE error family)", {"kind": "crash", "exc": out["raised"], "derived": c["derived"]})]
-        azp_in_play = c["derived"] != "at9068" and ("azp" in payload or (c["params"].get("client_id") and payload.get("aud") not in (c["params"]["client_id"], [c["params"]["client_id"]])))
+        azp_in_play = False
         if "ok" in out and bad:
             return [(f"{c['derived']} claims accepted although: {sorted(bad)}", {"kind": "accepted-nonconforming", "constraint": sorted(bad)[0][0], "claim": sorted(bad)[0][1],
                                                                               "derived": c["derived"]})]
